@@ -21,6 +21,7 @@ type legacy struct {
 	Freed   []int `json:"freed"`
 	Pending bool  `json:"pending"`
 	Bits    int   `json:"bits"`
+	Torn    int   `json:"torn"` // with Lost > 0: the first lost record is torn, its first n bytes remain (n < record length)
 	Lost    int   `json:"lost"` // the legacy primary lost its last n records (cut at a record boundary): keys whose current record is gone must be absent after the upgrade
 }
 
@@ -136,6 +137,14 @@ func buildLegacy(root string, r *seqRun, lg *legacy) ([]int, error) {
 						}
 					}
 				}
+			}
+			if lg.Torn > 0 {
+				first := recs[len(recs)-lg.Lost]
+				keep := int64(lg.Torn)
+				if keep >= 4+first.Size {
+					keep = 4 + first.Size - 1
+				}
+				cut += keep
 			}
 			if err := os.Truncate(filepath.Join(root, "data.0"), cut); err != nil {
 				return nil, err
